@@ -20,7 +20,7 @@ def store(names, labels):
     out = []
     for n in names:
         for pkg in (SQ, PG):
-            out.append({"name": n, "pkg": pkg, "labels": labels, "reach": ["done"]})
+            out.append({"name": n, "pkg": pkg, "labels": labels, "reach": ["done"], "opts_thorough": dict(STORE_T)})
     return out
 
 PROMISE_H = ["VH_P_Read", "VH_P_Create", "VH_P_Complete", "VH_P_TimeoutSweep"]
@@ -161,7 +161,7 @@ E_H = ["ReadPromise", "ReadPromises", "SearchPromises", "CreatePromise", "Update
 reg["C17"] = {"level": "translation_validation", "explanation": "for each of the 27 store command kinds the real SQLite handler and the real Postgres handler (Go SSA + their own SQL statement constants) are executed symbolically on the same symbolic database and the same symbolic command; SMT decides that they agree on error/success, on the result and on the resulting database; the two CREATE TABLE scripts are compared column by column",
     "assumptions": COMMON_ASSUME + ["documented dialect differences are not alarms: parameter numbering; LIKE collation (one uninterpreted predicate); JSON containment @> vs per-key json_extract on string-valued maps; rows of a LIMIT query without total order compared by count; SQLite's arbitrary representative under GROUP BY vs DISTINCT ON .. ORDER BY sort_id compared by the number of roots served; SERIAL vs AUTOINCREMENT; cursor positions within 32 bits"],
     "outside": ["the engines' own behaviour (MVCC, collations, JSON operators on non-string values)", "Postgres cannot be run here: its half of a counterexample is by reading, the SQLite half is demonstrable natively"],
-    "harnesses": [{"name": "VH_E_" + n, "pkg": CO, "labels": ["C17:"], "reach": ["both-ok"]} for n in E_H] + [{"name": "VH_E_Schema", "pkg": CO, "labels": ["C17:"], "reach": ["done"]}]}
+    "harnesses": [{"name": "VH_E_" + n, "pkg": CO, "labels": ["C17:"], "reach": ["both-ok"], "opts_thorough": dict(STORE_T)} for n in E_H] + [{"name": "VH_E_Schema", "pkg": CO, "labels": ["C17:"], "reach": ["done"]}]}
 
 # C02: linearizability by the rely/guarantee argument
 ALL_REQ = co(PROMISE_H[:3], ["C01:", "C03:", "C04:never", "C04:timeout", "C04:no-"], reach=REACH_P) + co(CB_H, ["C01:", "C05:"], opts=CBOPT, reach=REACH_P) \
@@ -177,7 +177,7 @@ reg["C02"] = {"level": "model_checking",
 reg["C06"] = {"level": "model_checking",
     "explanation": "the background sweep that fires schedules advances a schedule in the same transaction that creates its promise (a crash between two commits cannot lose a scheduled promise); the logical half of durability decided by SMT: Execute of both backends with a failure injected at every database/sql call position of a two-transaction batch (error => database equals the BeginTx snapshot, result => commit succeeded, every statement ran on the transaction opened by this Execute); store.Process builds completions only from a committed Execute; the state invariant (no completed promise with unconverted registrations, no invoke task without its promise) holds after EVERY single commit of every coroutine (labels O2:*), so stopping the process between any two store operations leaves a consistent state; routed creation and completion are single transactions",
     "assumptions": COMMON_ASSUME + ["a committed SQL transaction survives a process kill and an uncommitted one leaves no trace: the durability of SQLite/Postgres themselves is trusted, not checked"],
-    "outside": ["kill -9 / restart of the serve command, WAL/fsync behaviour, repeated crashes during recovery", "SqliteStore.Stop/Reset file handling and the default of the reset flag"],
+    "outside": ["kill -9 / restart of the serve command, WAL/fsync behaviour, repeated crashes during recovery", "how the flag library turns the `default` struct tags into configuration values"],
     "harnesses": store(["VH_C06_ExecuteAtomic", "VH_C06_ProcessError"], ["C06:", "C16:", "C12:"]) and [dict(h, reach=["committed", "failed"]) for h in store(["VH_C06_ExecuteAtomic", "VH_C06_ProcessError"], ["C06:", "C16:", "C12:"])]
                  + co(PROMISE_H, ["O2:"], reach=REACH_P) + co(CB_H, ["O2:"], opts=CBOPT, reach=REACH_P) + co(["VH_D_CreateRouted", "VH_D_CreateWithTask"], ["O2:", "C08:routed", "C08:promise-and-task", "C08:create-with-task"], opts=ROUTEOPT, reach=REACH_P)
                  + store(["VH_C05_CompletionTxn"], ["C05:registration", "C05:exactly", "C05:created"])
@@ -275,3 +275,17 @@ reg["C11"]["explanation"] += "; the poll transport's hand-off never blocks its s
 APIQ = [{"name": n, "pkg": "internal/app/subsystems/api", "labels": ["C14:"], "reach": ["accepted", "refused"]} for n in ("VH_A_SearchPromisesReq", "VH_A_SearchPromisesCursor", "VH_A_SearchSchedulesReq")]
 reg["C14"]["harnesses"] += [dict(h) for h in APIQ]
 reg["C14"]["explanation"] += "; the query helper shared by both front ends maps (pattern, state name, tags, limit, cursor) to the kernel request exactly (state names to their documented state sets, default page size 100, out-of-range values refused, a cursor accepted only if it decodes to a valid continuation)"
+
+reg["C06"]["harnesses"] += [dict(h, reach=["done", "kept", "reset"]) for h in store(["VH_C06_Stop"], ["C06:"])]
+reg["C06"]["explanation"] += "; graceful shutdown (Stop of both stores over os/sql contract stubs) removes the database file / drops the tables only when reset is configured, and the reset flag's declared default is false"
+
+reg["C19"]["harnesses"].append({"name": "VH_RT_New", "pkg": "internal/app/subsystems/aio/router", "labels": ["C19:"], "reach": ["builtin-source", "configured-source", "unknown-source-type"]})
+reg["C19"]["explanation"] += "; the real router constructor turns the configured source table into routing functions (configured tag source routes on its key, unknown type is an error, built-in source present iff no source is named default)"
+
+reg["C15"]["harnesses"].append({"name": "VH_H_StateJSON", "pkg": HTTP, "labels": ["C15:"], "reach": ["accepted", "refused"]})
+reg["C15"]["explanation"] += "; the promise state's JSON codec round-trips every declared state, gives different states different names and refuses everything else (the HTTP binding stub relies on this)"
+
+WLOOP = [{"name": "VH_ST_WorkerLoop", "pkg": pkg, "labels": ["C12:", "C16:"], "opts": {"faults": 0}, "opts_thorough": {"faults": 1}, "reach": ["answered", "done"]} for pkg in (SQ, PG)]
+for k in ("C12", "C16", "C11"):
+    reg[k]["harnesses"] += [dict(h, opts=dict(h["opts"]), opts_thorough=dict(h["opts_thorough"])) for h in WLOOP]
+reg["C12"]["explanation"] += "; the store workers' loop (Start, store.Collect, Process, EnqueueCQE) answers every queued submission exactly once, in order, for batch sizes 1 and 2 and either timing of the flush signal, and returns when its queue is closed"
